@@ -620,9 +620,11 @@ impl<'a> Model<'a> {
     }
 
     fn include(&self, fr: &Frame, target: usize, nm: &Naming, out: &mut String, stack: &mut Vec<Frame>) -> Result<(), Stop> {
-        // the engine runs the included template's OWN top-level chunk on behalf of that template,
-        // with a fresh block state and the same component depth
-        self.exec(Frame { vm: target, chunk: Chunk::Body(target), depth: fr.depth }, nm, out, stack)
+        // like a top-level render, an include starts from the body of the root ancestor of the
+        // included template (since b2aa72a; before, it ran the included template's own top-level
+        // chunk), on behalf of that template, with a fresh block state and the same component depth
+        let root = *self.parents[target].last().unwrap_or(&target);
+        self.exec(Frame { vm: target, chunk: Chunk::Body(root), depth: fr.depth }, nm, out, stack)
     }
 
     fn call(&self, fr: &Frame, owner: usize, k: usize, nm: &Naming, out: &mut String, stack: &mut Vec<Frame>) -> Result<(), Stop> {
